@@ -190,8 +190,11 @@ func execLocWorld(t *testing.T, plan *h.Plan, trace bool, prof lwProfile) *h.Res
 		w.eng = h.NewCoreEngine(w.state, back, ctl)
 		// the state hooks a System installs on every location (cron registration
 		// of scheduled rules): requests reach the states through them in service
-		lwCron := hs.NewSimCron(true)
-		w.eng.OnNewState = func(ctx *core.Context, name string, st core.State) { cron.AddHooks(ctx, lwCron, st) }
+		// (one run in four is a library user without a System: no hooks)
+		if plan.RunSeed%4 != 0 {
+			lwCron := hs.NewSimCron(true)
+			w.eng.OnNewState = func(ctx *core.Context, name string, st core.State) { cron.AddHooks(ctx, lwCron, st) }
+		}
 		w.eng.Store.SetFaults(plan.Faults)
 		w.model = h.NewModel(time.Now)
 		w.model.IdInject = plan.CfgB("id_inject")
@@ -1039,10 +1042,35 @@ func (w *lw) step(op h.Op) {
 	case "event":
 		want := w.checkDispatch(op.Loc, op.Map(), prot(op), op)
 		w.applyActionEffects(op, want)
+		if id, ok := w.oneShotTrigger(op.Loc, op.Map()); ok && len(want[id]) > 0 {
+			// a one-shot scheduled rule is retired after its run: a removal made
+			// with the caller's credentials (refused ones made the event fail)
+			m.RemFact(op.Loc, id, prot(op))
+			m.RemFact(op.Loc, h.PropId(id, "disabled"), prot(op))
+		}
 	default:
 		panic("harness: unknown op " + op.K)
 	}
 	w.after(op)
+}
+
+// oneShotTrigger: the event names ("trigger!") a live rule of loc whose
+// schedule is a one-shot one ("+delay" or "!instant").
+func (w *lw) oneShotTrigger(loc string, event map[string]interface{}) (string, bool) {
+	id, ok := event["trigger!"].(string)
+	if !ok {
+		return "", false
+	}
+	it, ok := w.model.Loc(loc).Items[id]
+	if !ok || !w.model.Live(it) {
+		return "", false
+	}
+	rule := h.RuleOf(it)
+	if rule == nil {
+		return "", false
+	}
+	s, _ := rule["schedule"].(string)
+	return id, strings.HasPrefix(s, "+") || strings.HasPrefix(s, "!")
 }
 
 func namesId(dw interface{}, id string) bool {
@@ -1680,6 +1708,13 @@ func (w *lw) checkDispatch(locName string, event map[string]interface{}, p h.Pro
 		w.actionTargetsUncertain(locName)
 		return
 	}
+	if id, ok := w.oneShotTrigger(locName, event); ok && merr == nil && len(want[id]) > 0 {
+		if l := w.model.Loc(locName); !w.model.CanWrite(l, p) {
+			// the run of a one-shot rule ends with its removal, which needs the write key
+			merr = &h.ErrModel{Why: "a one-shot rule cannot be retired: write not allowed"}
+			want = nil
+		}
+	}
 	failed := cond != nil
 	if failed != (merr != nil) {
 		if failed {
@@ -1920,6 +1955,11 @@ func whenShape(rule, p map[string]interface{}) string {
 // after runs the post-operation battery selected by the profile.
 func (w *lw) after(op h.Op) {
 	if !w.prof.Battery {
+		return
+	}
+	if op.Q {
+		// nothing is observed after this operation: the next one meets the
+		// location exactly as this one left it (expired items still unobserved)
 		return
 	}
 	for _, ln := range w.locNames() {
